@@ -545,3 +545,291 @@ Proof.
   - exists a, y, b. split; [exact Hl|]. split; [now apply Z.eqb_eq in Hy|].
     intros z Hz. specialize (Hb z Hz). now apply Z.eqb_neq in Hb.
 Qed.
+
+(* ------------------------------------------------------------------ grouping by instance *)
+(* ReaderCorr.grouped on the list of instance handles *)
+Fixpoint grouped_from_z (seen : list Z) (cur : Z) (l : list Z) : bool :=
+  match l with
+  | [] => true
+  | x :: t => if x =? cur then grouped_from_z seen cur t
+              else negb (memZ x seen) && grouped_from_z (cur :: seen) x t
+  end.
+Definition grouped_z (l : list Z) : bool :=
+  match l with [] => true | x :: t => grouped_from_z [] x t end.
+
+Lemma grouped_from_map l : forall seen cur, grouped_from seen cur l = grouped_from_z seen cur (map f_inst l).
+Proof.
+  induction l as [|x t IH]; intros seen cur; cbn [grouped_from grouped_from_z map]; [reflexivity|].
+  now rewrite !IH.
+Qed.
+Lemma grouped_map l : grouped l = grouped_z (map f_inst l).
+Proof. destruct l as [|x t]; [reflexivity|]. cbn [grouped grouped_z map]. apply grouped_from_map. Qed.
+
+Lemma grouped_from_z_prefix a b : forall seen cur,
+  grouped_from_z seen cur (a ++ b) = true -> grouped_from_z seen cur a = true.
+Proof.
+  induction a as [|x t IH]; intros seen cur; cbn [app grouped_from_z]; [reflexivity|].
+  destruct (x =? cur); [apply IH|]. rewrite !andb_true_iff. intros [H1 H2]. split; [exact H1|now apply IH in H2].
+Qed.
+Lemma grouped_z_prefix a b : grouped_z (a ++ b) = true -> grouped_z a = true.
+Proof. destruct a as [|x t]; [reflexivity|]. cbn [app grouped_z]. apply grouped_from_z_prefix. Qed.
+
+Lemma grouped_from_z_const h l : forall seen, (forall x, In x l -> x = h) -> grouped_from_z seen h l = true.
+Proof.
+  induction l as [|x t IH]; intros seen H; cbn [grouped_from_z]; [reflexivity|].
+  rewrite (H x (or_introl eq_refl)), Z.eqb_refl. apply IH. intros y Hy. apply H. now right.
+Qed.
+Lemma grouped_z_const h l : (forall x, In x l -> x = h) -> grouped_z l = true.
+Proof.
+  destruct l as [|x t]; [reflexivity|]. intros H. cbn [grouped_z]. rewrite (H x (or_introl eq_refl)).
+  apply grouped_from_z_const. intros y Hy. apply H. now right.
+Qed.
+
+(* the collection is grouped by instance exactly when the collected samples are *)
+Theorem grouped_iff_collected r max m hsel take r' l :
+  collect r max m hsel take = (r', CollOk l) ->
+  grouped l = grouped_z (map s_inst (firstn_z max (filter (sel r m hsel) (r_samples r)))).
+Proof.
+  intros H. rewrite grouped_map. f_equal. apply (collection_data _ _ _ _ _ _ _ H).
+Qed.
+
+(* complement of the recorded class: the stored matching samples are contiguous per instance *)
+Theorem grouped_when_contiguous r max m hsel take r' l :
+  collect r max m hsel take = (r', CollOk l) ->
+  grouped_z (map s_inst (filter (sel r m hsel) (r_samples r))) = true ->
+  grouped l = true.
+Proof.
+  intros H G. rewrite (grouped_iff_collected _ _ _ _ _ _ _ H).
+  destruct (firstn_z_prefix max (filter (sel r m hsel) (r_samples r))) as [rest E].
+  rewrite E, map_app in G. now apply grouped_z_prefix in G.
+Qed.
+
+(* ... in particular when they all belong to one instance (always so with an instance argument) *)
+Theorem grouped_one_instance r max m hsel take r' l h :
+  collect r max m hsel take = (r', CollOk l) ->
+  (forall s, In s (r_samples r) -> sel r m hsel s = true -> s_inst s = h) ->
+  grouped l = true.
+Proof.
+  intros H Hone. apply (grouped_when_contiguous _ _ _ _ _ _ _ H). apply (grouped_z_const h).
+  intros x Hx. apply in_map_iff in Hx. destruct Hx as (s & <- & Hs). apply filter_In in Hs. now apply Hone.
+Qed.
+
+Corollary grouped_instance_arg r max m h take r' l :
+  collect r max m (Some h) take = (r', CollOk l) -> grouped l = true.
+Proof.
+  intros H. apply (grouped_one_instance _ _ _ _ _ _ _ h H). intros s _ Hs. now apply sel_inst in Hs.
+Qed.
+
+(* the recorded deviation (finding C20-not-grouped-by-instance): storage order is returned
+   as is, so interleaved instances stay interleaved *)
+Definition q_plain : qos := mkQ false None None None None false (Some 0).
+Definition ops_interleaved : list op :=
+  [OpAdd 1 1 KAlive (Some 1) 100 10; OpAdd 1 2 KAlive (Some 2) 101 20; OpAdd 1 1 KAlive (Some 3) 102 30].
+
+Lemma not_grouped_witness :
+  exists l, snd (collect (run q_plain ops_interleaved) (-1) all_masks None false) = CollOk l /\
+            map f_inst l = [1; 2; 1] /\ grouped l = false.
+Proof. eexists. split; [vm_compute; reflexivity|]. split; vm_compute; reflexivity. Qed.
+
+(* ------------------------------------------------------------------ invariants of reachable states *)
+Definition handles (r : reader) : list Z := map i_handle (r_insts r).
+(* every stored sample belongs to a known instance: the `else return true` branch of the
+   retain_mut loop (instance not found) is dead *)
+Definition insts_known (r : reader) : Prop :=
+  forall s, In s (r_samples r) -> In (s_inst s) (handles r).
+Definition reader_inv (r : reader) : Prop := insts_known r /\ NoDup (handles r).
+
+Lemma find_inst_In h l : find_inst h l <> None <-> In h (map i_handle l).
+Proof.
+  induction l as [|i t IH]; cbn [find_inst map In]; [tauto|].
+  destruct (i_handle i =? h) eqn:E.
+  - apply Z.eqb_eq in E. split; [now left|discriminate].
+  - apply Z.eqb_neq in E. rewrite IH. tauto.
+Qed.
+
+Lemma find_inst_handle h l i : find_inst h l = Some i -> i_handle i = h.
+Proof.
+  induction l as [|j t IH]; cbn [find_inst]; [discriminate|].
+  destruct (i_handle j =? h) eqn:E; [|exact IH]. intros H; injection H as <-. now apply Z.eqb_eq.
+Qed.
+
+Lemma update_state_handle i k : i_handle (update_state i k) = i_handle i.
+Proof. unfold update_state. destruct (i_state i), k; reflexivity. Qed.
+
+Lemma upd_inst_handles h f l : (forall i, i_handle (f i) = i_handle i) ->
+  map i_handle (upd_inst h f l) = map i_handle l.
+Proof.
+  intros Hf. induction l as [|i t IH]; cbn [upd_inst map]; [reflexivity|].
+  destruct (i_handle i =? h); cbn [map]; [now rewrite Hf|now rewrite IH].
+Qed.
+
+Lemma touch_handles l h k l' : touch_instance l h k = Some l' ->
+  (In h (map i_handle l) /\ map i_handle l' = map i_handle l) \/
+  (~ In h (map i_handle l) /\ map i_handle l' = map i_handle l ++ [h]).
+Proof.
+  unfold touch_instance. destruct (find_inst h l) as [i|] eqn:E.
+  - intros H; injection H as <-. left. split.
+    + apply find_inst_In. now rewrite E.
+    + apply upd_inst_handles. intros j. apply update_state_handle.
+  - destruct (is_alive_kind k); [|discriminate]. intros H; injection H as <-. right. split.
+    + intros Hin. apply find_inst_In in Hin. now apply Hin.
+    + rewrite map_app. cbn [map]. now rewrite update_state_handle.
+Qed.
+
+Lemma add_change_insts_cases r w data k h t rts :
+  let r' := fst (add_change r w data k h t rts) in
+  (r_insts r' = r_insts r /\ snd (add_change r w data k h t rts) <> Added) \/
+  (exists i1, touch_instance (r_insts r) h k = Some i1 /\ r_insts r' = i1 /\
+              snd (add_change r w data k h t rts) <> Added) \/
+  (exists i1 i5, touch_instance (r_insts r) h k = Some i1 /\ touch_instance i1 h k = Some i5 /\ r_insts r' = i5).
+Proof.
+  cbv zeta. unfold add_change.
+  destruct (touch_instance (r_insts r) h k) as [i1|] eqn:T1; [|left; split; [reflexivity|discriminate]].
+  repeat (break_match; cbn [fst snd r_insts set_insts set_owns] in *;
+          try (right; left; exists i1; split; [reflexivity|split; [reflexivity|discriminate]])).
+  right; right. eexists; eexists. split; [reflexivity|]. split; [eassumption|reflexivity].
+Qed.
+
+Lemma insert_before_In {A} (p : A -> bool) x l y : In y (insert_before p x l) <-> y = x \/ In y l.
+Proof.
+  induction l as [|z t IH]; cbn [insert_before In]; [intuition|].
+  destruct (p z); cbn [In]; [intuition|]. rewrite IH. intuition.
+Qed.
+Lemma remove_first_In {A} (p : A -> bool) l y : In y (remove_first p l) -> In y l.
+Proof.
+  induction l as [|z t IH]; cbn [remove_first In]; [tauto|]. destruct (p z); cbn [In]; [tauto|]. intuition.
+Qed.
+
+Lemma thinned_in k l : thinned k l -> forall x, In x k -> exists s, In s l /\ s_inst x = s_inst s.
+Proof.
+  intros H. induction H as [|s k l H IH|s k l H IH|s k l H IH]; intros x Hx.
+  - destruct Hx.
+  - destruct Hx as [<-|Hx]; [exists s; split; [now left|reflexivity]|].
+    destruct (IH x Hx) as (s' & Hs & E). exists s'. split; [now right|exact E].
+  - destruct Hx as [<-|Hx]; [exists s; split; [now left|reflexivity]|].
+    destruct (IH x Hx) as (s' & Hs & E). exists s'. split; [now right|exact E].
+  - destruct (IH x Hx) as (s' & Hs & E). exists s'. split; [now right|exact E].
+Qed.
+
+Lemma collect_handles r max m hsel take : handles (fst (collect r max m hsel take)) = handles r.
+Proof.
+  unfold collect, handles. break_match; [reflexivity|].
+  destruct (collect_loop r m hsel max take (r_samples r) 0) as [kept c].
+  assert (Em : map i_handle (mark_viewed_all c (r_insts r)) = map i_handle (r_insts r)).
+  { unfold mark_viewed_all. rewrite map_map. apply map_ext. intros i.
+    destruct (existsb (fun x => f_inst x =? i_handle i) c); reflexivity. }
+  destruct c; cbn [fst r_insts]; exact Em.
+Qed.
+
+Lemma next_loop_cases fuel : forall r max m prev take,
+  next_loop fuel r max m prev take = (r, NoData) \/
+  exists h, next_loop fuel r max m prev take = collect r max m (Some h) take.
+Proof.
+  induction fuel as [|f IH]; intros; cbn [next_loop]; [now left|].
+  destruct (next_instance r prev) as [h|]; [|now left].
+  destruct (collect r max m (Some h) take) as [r' c] eqn:E.
+  destruct c; try (right; exists h; now rewrite E). apply IH.
+Qed.
+
+Lemma collect_inv r max m hsel take : reader_inv r -> reader_inv (fst (collect r max m hsel take)).
+Proof.
+  intros [Hk Hn]. split.
+  - intros x Hx. rewrite collect_handles.
+    destruct (thinned_in _ _ (collect_samples_thinned r max m hsel take) x Hx) as (s & Hs & ->). now apply Hk.
+  - now rewrite collect_handles.
+Qed.
+
+Lemma next_op_inv r max m prev take : reader_inv r -> reader_inv (fst (next_instance_op r max m prev take)).
+Proof.
+  intros H. unfold next_instance_op.
+  destruct (next_loop_cases (S (length (r_insts r))) r max m prev take) as [E|[h E]]; rewrite E;
+    [exact H|now apply collect_inv].
+Qed.
+
+Lemma NoDup_snoc {A} (l : list A) h : NoDup l -> ~ In h l -> NoDup (l ++ [h]).
+Proof.
+  induction l as [|x t IH]; intros Hn Hh; cbn [app]; [constructor; [intros []|constructor]|].
+  inversion Hn as [|? ? Hx Ht]; subst. constructor.
+  - intros Hin. apply in_app_or in Hin. destruct Hin as [Hin|[<-|[]]]; [contradiction|]. apply Hh. now left.
+  - apply IH; [exact Ht|]. intros Hin. apply Hh. now right.
+Qed.
+
+Lemma add_change_inv r w data k h t rts : reader_inv r -> reader_inv (fst (add_change r w data k h t rts)).
+Proof.
+  intros [Hk Hn].
+  pose proof (add_change_insts_cases r w data k h t rts) as HI. cbv zeta in HI.
+  pose proof (add_change_samples r w data k h t rts) as HS. cbv zeta in HS.
+  set (r' := fst (add_change r w data k h t rts)) in *.
+  (* the handle list only grows, by h, without duplicates *)
+  assert (HH : (handles r' = handles r \/ (~ In h (handles r) /\ handles r' = handles r ++ [h])) /\
+               (snd (add_change r w data k h t rts) = Added -> In h (handles r'))).
+  { unfold handles. destruct HI as [[E Hna]|[(i1 & T1 & E & Hna)|(i1 & i5 & T1 & T5 & E)]]; rewrite E.
+    - split; [now left|intros; contradiction].
+    - split; [|intros; contradiction]. destruct (touch_handles _ _ _ _ T1) as [[_ E1]|[Hni E1]]; [now left|now right].
+    - destruct (touch_handles _ _ _ _ T1) as [[Hin E1]|[Hni E1]].
+      + destruct (touch_handles _ _ _ _ T5) as [[_ E5]|[Hni5 _]].
+        * rewrite E5, E1. split; [now left|intros _; exact Hin].
+        * exfalso. apply Hni5. now rewrite E1.
+      + destruct (touch_handles _ _ _ _ T5) as [[_ E5]|[Hni5 _]].
+        * rewrite E5, E1. split; [now right|intros _; apply in_or_app; right; now left].
+        * exfalso. apply Hni5. rewrite E1. apply in_or_app; right; now left. }
+  destruct HH as [HH Hadd].
+  assert (Hsub : forall x, In x (handles r) -> In x (handles r')).
+  { destruct HH as [E|[_ E]]; rewrite E; [auto|]. intros x Hx. apply in_or_app; now left. }
+  split.
+  - intros s Hs. destruct HS as [E|(smp & base & _ & Hinst & _ & _ & _ & _ & Hbase & Hshape & Hadded)].
+    + rewrite E in Hs. now apply Hsub, Hk.
+    + rewrite Hshape in Hs.
+      assert (Hs' : s = smp \/ In s base).
+      { destruct (q_bysrc (r_qos r)); [now apply insert_before_In in Hs|].
+        apply in_app_or in Hs. destruct Hs as [Hs|[Hs|[]]]; [now right|now left]. }
+      destruct Hs' as [->|Hs'].
+      * rewrite Hinst. now apply Hadd.
+      * apply Hsub, Hk. destruct Hbase as [->| ->]; [exact Hs'|now apply remove_first_In in Hs'].
+  - destruct HH as [E|[Hni E]]; rewrite E; [exact Hn|].
+    now apply NoDup_snoc.
+Qed.
+
+Lemma step_inv r o : reader_inv r -> reader_inv (fst (step r o)).
+Proof.
+  intros H. destruct o; cbn [step].
+  - pose proof (add_change_inv r w data k h t rts H) as H'.
+    destruct (add_change r w data k h t rts) as [r' a]. exact H'.
+  - pose proof (collect_inv r max m hsel false H) as H'. destruct (collect r max m hsel false) as [r' c]. exact H'.
+  - pose proof (collect_inv r max m hsel true H) as H'. destruct (collect r max m hsel true) as [r' c]. exact H'.
+  - pose proof (next_op_inv r max m prev false H) as H'.
+    destruct (next_instance_op r max m prev false) as [r' c]. exact H'.
+  - pose proof (next_op_inv r max m prev true H) as H'.
+    destruct (next_instance_op r max m prev true) as [r' c]. exact H'.
+  - unfold add_matched. destruct (upd_pub w s (r_matched r)); exact H.
+  - unfold remove_matched. destruct (find_pub w (r_matched r)); exact H.
+Qed.
+
+Theorem reachable_inv q ops : reader_inv (run q ops).
+Proof.
+  unfold run. change (fst (run_obs (init_reader q) ops)) with (run_from (init_reader q) ops).
+  apply (run_from_inv reader_inv); [exact step_inv|]. split; [intros s []|constructor].
+Qed.
+
+(* in a reachable state the selection is purely "instance argument + three masks" *)
+Theorem reachable_sel_iff q ops m hsel s :
+  let r := run q ops in
+  In s (r_samples r) ->
+  exists i, find_inst (s_inst s) (r_insts r) = Some i /\
+    (sel r m hsel s = true <->
+     match hsel with Some h => s_inst s = h | None => True end /\
+     ss_in m (s_ss s) = true /\ vs_in m (i_view i) = true /\ is_in m (i_state i) = true).
+Proof.
+  cbv zeta. intros Hs. destruct (reachable_inv q ops) as [Hk _].
+  specialize (Hk s Hs). apply find_inst_In in Hk.
+  destruct (find_inst (s_inst s) (r_insts (run q ops))) as [i|] eqn:E; [|contradiction].
+  exists i. split; [reflexivity|]. rewrite sel_iff. rewrite E. split.
+  - intros [Hh (j & Hj & Hm)]. injection Hj as <-. tauto.
+  - intros [Hh Hm]. split; [exact Hh|]. exists i. tauto.
+Qed.
+
+(* a history used by the non-vacuity examples: instance 1 is written, disposed, reborn
+   (generation 1) and written again; instance 2 is written in between *)
+Definition ops_lifecycle : list op :=
+  [OpAdd 1 1 KAlive (Some 1) 100 10; OpAdd 1 1 KDisposed (Some 2) 101 20; OpAdd 1 1 KAlive (Some 3) 102 30;
+   OpAdd 1 2 KAlive (Some 4) 103 40; OpAdd 1 1 KAlive (Some 5) 104 50].
